@@ -110,7 +110,10 @@ CHECKS = {
                      "established idle / with data outstanding on the peer's or on the victim's own side - reliable or partially reliable - "
                      "media flowing) and then sampled with seeded field values: the victim's DTLS "
                      "receive loop and every media task stay alive, handling one forged datagram costs < 1e6 + 2000*len executed lines and allocates < 8 MB + 4000*len bytes at peak, "
-                     "and after void datagrams a fresh data-channel round trip and continued frame delivery succeed." ),
+                     "and after void datagrams a fresh data-channel round trip and continued frame delivery succeed. Codec payloads: a live audio stream "
+                     "and a second video stream carry genuinely encoded frames to the receiver's real decoder worker (a real thread behind a "
+                     "baton queue); nonsensical payloads (empty, one byte, garbage, truncated, oversized; undecodable inter frames) must leave "
+                     "the decoder thread alive and decoding - audio keeps being decoded, video keeps up with the codec library fed the same frames." ),
 }
 
 NOT_APPLICABLE = [
